@@ -256,6 +256,29 @@ func ruleP01Placeholder(p *Prog, r *Report) {
 			if !ok || (bo.Op != token.NEQ && bo.Op != token.EQL) {
 				continue
 			}
+			// equivalent spelling: strings.Trim(<placeholder text>, "?") != ""
+			if es, isS := constString(bo.Y); isS && es == "" {
+				if tc, _ := callOf(strip(bo.X)); tc != nil && staticCallee(tc) != nil {
+					switch staticCallee(tc).String() {
+					case "strings.Trim", "strings.TrimLeft", "strings.TrimRight":
+						if cut, isC := constString(tc.Common().Args[1]); isC && cut == "?" {
+							n++
+							other := b.Succs[0]
+							if bo.Op == token.EQL {
+								other = b.Succs[1]
+							}
+							msg := rejectComplete(other, func(ret *ssa.Return) string {
+								if len(ret.Results) < 2 || p.nilnessAt(ret.Block(), ret.Results[len(ret.Results)-1], 0) != nnNonNil {
+									return "does not return an error at " + p.instrPos(ret)
+								}
+								return ""
+							})
+							r.check(msg == "", rule, fnName(f)+":placeholder", p.instrPos(iff), "any placeholder character other than '?' is rejected on every path", "a placeholder character other than '?' is not always rejected: "+msg)
+						}
+					}
+				}
+				continue
+			}
 			k, isK := constInt(bo.Y)
 			if !isK || k != '?' {
 				continue
@@ -608,7 +631,7 @@ func ruleP16Order(p *Prog, r *Report) {
 			continue
 		}
 		for _, ret := range returnsOf(m) {
-			bo, ok := strip(ret.Results[0]).(*ssa.BinOp)
+			bo, ok := normCmp(ret.Results[0])
 			good := false
 			if ok && bo.Op == c.op {
 				good = isOffsetOf(bo.X, m.Params[0]) && isOffsetOf(bo.Y, m.Params[1])
@@ -622,6 +645,34 @@ func ruleP16Order(p *Prog, r *Report) {
 			r.check(good, rule, "time."+c.name, p.instrPos(ret), c.name+" compares both midnight offsets (day shift included) with "+c.op.String(), "time."+c.name+" does not compare the two MidnightOffset().InMinutes() values with "+c.op.String()+" (e.g. it ignores the day shift)")
 		}
 	}
+}
+
+// normCmp reads a comparison through negations: !(a < b) is a >= b. The returned BinOp is a
+// description (not an instruction of the program) when a negation was folded in.
+func normCmp(v ssa.Value) (*ssa.BinOp, bool) {
+	v = strip(v)
+	neg := false
+	for {
+		u, ok := v.(*ssa.UnOp)
+		if !ok || u.Op != token.NOT {
+			break
+		}
+		neg = !neg
+		v = strip(u.X)
+	}
+	bo, ok := v.(*ssa.BinOp)
+	if !ok {
+		return nil, false
+	}
+	if !neg {
+		return bo, true
+	}
+	inv := map[token.Token]token.Token{token.LSS: token.GEQ, token.GEQ: token.LSS, token.GTR: token.LEQ, token.LEQ: token.GTR, token.EQL: token.NEQ, token.NEQ: token.EQL}
+	op, known := inv[bo.Op]
+	if !known {
+		return nil, false
+	}
+	return &ssa.BinOp{Op: op, X: bo.X, Y: bo.Y}, true
 }
 
 // isOffsetOf: v == who.MidnightOffset().InMinutes()
